@@ -16,7 +16,11 @@ def run(mod, tier, seed, replay=None):
     # ---- proofs -------------------------------------------------------------------------
     ok_gen, gen_out = C.regenerate()
     if not ok_gen:
-        rep.note("translator failed: " + gen_out[-2000:])
+        # go2lean writes a non-compiling file for a target it cannot translate and still exits 0: a
+        # non-zero exit is the Go toolchain failing to build/run the translator, not a verdict
+        print(gen_out[-2000:])
+        print("ERROR: tools/go2lean could not be built/run (Go toolchain failure, not a property verdict)")
+        return 2
     ok_build, build_out = C.lake_build([f"FunProps.{m}" for m in C.prop_modules(prop)] + ["driver"])
     names = C.theorem_names(prop)
     obligations = len(names)
